@@ -365,8 +365,10 @@ def write_evidence(mod, tier, seed, m, verdict, reasons, wall, known_hits, n_unl
         "wall_s": round(wall, 3),
         "violations": int(n_unlisted),
     }
-    d = VERIF / "evidence"
-    d.mkdir(exist_ok=True)
+    # evidence/ describes /repo itself; runs against a scratch tree (self-tests with RVMON_REPO) must not
+    # overwrite it
+    d = VERIF / "evidence" if str(env.repo_root()) == "/repo" else VERIF / ".work" / "evidence-scratch"
+    d.mkdir(parents=True, exist_ok=True)
     tmp = d / f".{mod.ID}.json.tmp"
     tmp.write_text(json.dumps(ev, indent=1, sort_keys=False, default=repr) + "\n")
     os.replace(tmp, d / f"{mod.ID}.json")
